@@ -153,10 +153,11 @@ namespace nmtools::utl
         vector(size_type N)
             : allocator{}
             , buffer_(allocator.allocate(N))
-            , size_(N)
+            , size_(0)
             , buffer_size_(N)
             , initialized(true)
         {
+            // grows from 0 to N: resize value-initialises the N cells (like std::vector(N))
             resize(N);
         }
         vector(const vector& other)
@@ -224,6 +225,10 @@ namespace nmtools::utl
                 buffer_ = new_buffer;
             } else {
                 // not invalidating the value, for now
+            }
+            // like std::vector: the cells exposed by a growing resize are value-initialised
+            for (size_type i=old_size; i<new_size; i++) {
+                buffer_[i] = T{};
             }
         }
 
